@@ -508,8 +508,10 @@ func (d *db) applyPut(batch WriteBatch, notifications *notifications, putReq *pr
 	if len(putReq.GetSequenceKeyDelta()) > 0 {
 		prefixKey := putReq.Key
 		newKey, err = generateUniqueKeyFromSequences(batch, putReq)
-		putReq.Key = newKey
-		d.sequenceWaiterTracker.SequenceUpdated(prefixKey, newKey)
+		if err == nil {
+			putReq.Key = newKey
+			d.sequenceWaiterTracker.SequenceUpdated(prefixKey, newKey)
+		}
 	} else if !internal {
 		se, err = checkExpectedVersionId(batch, putReq.Key, putReq.ExpectedVersionId)
 	}
